@@ -51,7 +51,8 @@ MANIFEST_ENTRY = {
             "the ISO grammar the advance is the last covering entry else DW; vertical fonts take DW2/W2. Embedded TrueType "
             "cmap: for any bytes, a completed format-4 segment loop gives every character the glyph of the last segment "
             "covering it ((c + idDelta) mod 65536, or the glyph array entry at idRangeOffset plus idDelta unless it is 0); "
-            "16-bit arrays are read back as written at any offset; the text reported for a glyph is a character the table "
+            "a subtable body laid out as the format prescribes, anywhere in the program, is taken apart into exactly its four "
+            "arrays (C07_ttf_format4_layout); 16-bit arrays are read back as written at any offset; the text reported for a glyph is a character the table "
             "maps to it, every mapped glyph has a text, a glyph with one character gets exactly it (the byte layout of the "
             "directory and of formats 0/2 is tied by differential runs only). Predefined CMaps: "
             "every kana/hangul/unified ideograph the platform codec can encode and the CMap maps must come back as the same "
